@@ -94,6 +94,9 @@ type wbuild struct {
 	fs       *faultState
 	focus    string
 	load     string
+	// crash sweep: kill invocation number sweepInv at its sweepOp-th file-system operation
+	sweepInv, sweepOp int
+	opsPerInv         []int
 	lastMut     func(m2 *Machine) (string, OutSpec, string)
 	lastMutKind string
 }
